@@ -107,7 +107,7 @@ func ChildFor(prop string, seed int64, tier, cfgName, stateFile string, trees in
 	g := s.G
 	chain.TrustedTxChecker = func(tx *btc.Tx) bool {
 		var h refchain.Hash
-		copy(h[:], tx.Hash.Hash[:])
+		copy(h[:], tx.WTxID().Hash[:]) // by wtxid, as the client's checker does: a witness that differs is not what was verified
 		vouchMu.Lock()
 		defer vouchMu.Unlock()
 		return vouched[h]
@@ -277,6 +277,9 @@ func OneTree(s *chainsim.Sim, run *vlib.Run, r *vlib.Rand, tno int) bool {
 	if WorkMode && r.Intn(2) == 0 {
 		return workDuel(s, run, r)
 	}
+	if Focus == "C04" && tno == 1 {
+		return bip68Duel(s, run, r)
+	}
 	if r.Intn(4) == 0 {
 		return tiePrefixPattern(s, run, r)
 	}
@@ -324,6 +327,10 @@ func OneTree(s *chainsim.Sim, run *vlib.Run, r *vlib.Rand, tno int) bool {
 				kind = "connect-invalid/overclaim"
 			case x < 34:
 				kind = "connect-invalid/double-spend"
+			case x < 46:
+				kind = "connect-invalid/bip68-time" // a time-based relative lock one unit short, measured on this branch
+			case x < 58:
+				kind = "valid/bip68-time" // ... and exactly satisfied
 			}
 		}
 		switch x := r.Intn(100); {
@@ -338,6 +345,9 @@ func OneTree(s *chainsim.Sim, run *vlib.Run, r *vlib.Rand, tno int) bool {
 			kind = "check-invalid/merkle"
 		case x < 21:
 			kind = "check-invalid/pow"
+		}
+		if Focus == "C04" {
+			g.NextGap = 30 + uint32(r.Intn(4000)) // branches with clocks of their own: the same height has another median time on each
 		}
 		if WorkMode {
 			if r.Bool() {
@@ -418,6 +428,104 @@ func OneTree(s *chainsim.Sim, run *vlib.Run, r *vlib.Rand, tno int) bool {
 			}
 		}
 	}
+	run.Inc("trees")
+	return true
+}
+
+// bip68Duel (C04 trees): two branches, each long enough to have a median time of its own (the median of eleven
+// time stamps follows a branch only after six blocks), run on different clocks. Each creates a coin at the same height
+// and spends it two blocks later under a time-based relative lock: exactly satisfied on the first branch (which is
+// connected), one unit short - measured on its own clock - on the second, longer one. The lock counts from the median
+// time of the block before the coin's block on the branch the spend is in; whatever was worked out for that height on
+// the other branch must not decide. The reference refuses the last block of the second branch; the node has to come
+// back to the first.
+func bip68Duel(s *chainsim.Sim, run *vlib.Run, r *vlib.Rand) bool {
+	g := s.G
+	fork := s.Ref.Tip
+	if g.P.CSV == 0 || fork.Height+1 < g.P.CSV {
+		return true
+	}
+	build := func(gapLo, gapHi int, extra int, short bool) []*refchain.Block {
+		var l []*refchain.Block
+		par := fork
+		add := func(b *refchain.Block) {
+			l = append(l, b)
+			par = g.PlanNode(b, par)
+		}
+		gap := func() { g.NextGap = uint32(gapLo + r.Intn(gapHi-gapLo)) }
+		for i := 0; i < 7; i++ {
+			gap()
+			add(g.Build(chainsim.BlockSpec{Parent: par}))
+		}
+		// the coin: an anyone-can-spend output created on this branch
+		view := g.View(par)
+		if view == nil {
+			return nil
+		}
+		var src refchain.OutPoint
+		found := false
+		for _, op := range g.Spendable(view, par.Height+1, true) {
+			if view[op].Value > 1000000 {
+				src, found = op, true
+				break
+			}
+		}
+		if !found {
+			return nil
+		}
+		c := view[src]
+		mk := g.Spend([]refchain.OutPoint{src}, []refchain.Coin{c}, []refchain.TxOut{g.OutTrue(c.Value - 10)}, 2, 0, nil, -1)
+		gap()
+		add(g.Build(chainsim.BlockSpec{Parent: par, Txs: []*refchain.Tx{mk}, Fees: 10}))
+		coinH := par.Height
+		for i := 0; i < 1+extra; i++ {
+			gap()
+			add(g.Build(chainsim.BlockSpec{Parent: par}))
+		}
+		base := int64(par.Ancestor(coinH - 1).MTP())
+		n := (int64(par.MTP()) - base) / 512
+		if n < 0 || n > 0xfffd {
+			return nil
+		}
+		if short {
+			n++
+		}
+		sp := &refchain.Tx{Version: 2, In: []refchain.TxIn{{Prev: refchain.OutPoint{Hash: mk.TxID(), Idx: 0}, Sequence: uint32(n) | 1<<22}}, Out: []refchain.TxOut{g.OutTrue(c.Value - 20)}}
+		gap()
+		add(g.Build(chainsim.BlockSpec{Parent: par, Txs: []*refchain.Tx{sp}, Fees: 10}))
+		return l
+	}
+	fastFirst := r.Bool()
+	lo1, hi1, lo2, hi2 := 60, 200, 3000, 3600
+	if !fastFirst {
+		lo1, hi1, lo2, hi2 = lo2, hi2, lo1, hi1
+	}
+	a := build(lo1, hi1, 0, false)
+	b := build(lo2, hi2, 1, true)
+	g.NextGap = 0
+	if a == nil || b == nil {
+		run.Inc("bip68_duels_not_built")
+		return true
+	}
+	for _, x := range a {
+		if rr, _, ok := s.Offer(x, "duel68/first-branch"); !ok {
+			return false
+		} else if rr.Stage != "connected" {
+			run.Inconclusive("bip68 duel: the first branch is not connected by the reference (%s %s)", rr.Stage, rr.Reason)
+			return false
+		}
+	}
+	for i, x := range b {
+		rr, _, ok := s.Offer(x, "duel68/second-branch")
+		if !ok {
+			return false
+		}
+		if i == len(b)-1 && rr.Reason != "bad-txns-nonfinal(BIP68)" {
+			run.Inconclusive("bip68 duel: the reference refuses the last block of the second branch for %q", rr.Reason)
+			return false
+		}
+	}
+	run.Inc("pattern_trees/bip68-duel")
 	run.Inc("trees")
 	return true
 }
@@ -640,13 +748,40 @@ func buildKind(g *chainsim.Gen, r *vlib.Rand, par *refchain.Node, kind string) *
 	a, b := rich[r.Intn(len(rich))], rich[r.Intn(len(rich))]
 	ca, cb := view[a], view[b]
 	switch kind {
+	case "connect-invalid/bip68-time", "valid/bip68-time":
+		// BIP68, time-based: the lock counts from the median time of the block before the coin's block - on the branch this
+		// block is built on, whatever another branch had at that height
+		if g.P.CSV == 0 || height < g.P.CSV {
+			return nil
+		}
+		var op refchain.OutPoint
+		var co refchain.Coin
+		found := false
+		for _, x := range rich { // the youngest one: most likely created on this very branch
+			if cx := view[x]; !cx.Coinbase && cx.Height > 0 && height-cx.Height <= 40 && (!found || cx.Height > co.Height) {
+				op, co, found = x, cx, true
+			}
+		}
+		if !found {
+			return nil
+		}
+		base := int64(par.Ancestor(co.Height - 1).MTP())
+		n := (int64(par.MTP()) - base) / 512 // satisfied iff base + n*512 - 1 < MTP(parent)
+		if n < 0 || n > 0xfffd {
+			return nil
+		}
+		if kind == "connect-invalid/bip68-time" {
+			n++
+		}
+		t := g.Spend([]refchain.OutPoint{op}, []refchain.Coin{co}, []refchain.TxOut{g.OutTrue(co.Value - 10)}, 2, 0, []uint32{uint32(n) | 1<<22}, -1)
+		return g.Build(chainsim.BlockSpec{Parent: par, Txs: []*refchain.Tx{t}, Fees: 10})
 	case "connect-invalid/script":
 		t1 := g.Spend([]refchain.OutPoint{a}, []refchain.Coin{ca}, []refchain.TxOut{g.OutTrue(ca.Value - 10)}, 1, 0, nil, 0)
 		if a != b && r.Bool() {
 			// in front of it a valid transaction that chain.TrustedTxChecker vouches for (the client's pool has verified it):
 			// no verifier for that one - the failing one behind it still has to be found
 			t0 := g.Spend([]refchain.OutPoint{b}, []refchain.Coin{cb}, []refchain.TxOut{g.OutTrue(cb.Value - 10)}, 1, 0, nil, -1)
-			vouch(t0.TxID())
+			vouch(t0.WTxID())
 			return g.Build(chainsim.BlockSpec{Parent: par, Txs: []*refchain.Tx{t0, t1}, Fees: 20})
 		}
 		return g.Build(chainsim.BlockSpec{Parent: par, Txs: []*refchain.Tx{t1}, Fees: 10})
